@@ -44,7 +44,7 @@ prop("C02",
 prop("C03",
      [("S1", S.S1, K01, {}), ("S2", S.S2, K01, {}), ("S3", S.S3, K01, {}), ("S5", S.S5, K01, {}),
       ("S6", S.S6, K01, {"roles_filter": ("READY", "DONE")}),
-      ("R3", B.R3, ("K0",), {"parts": ("structures", "counts")}), ("R4", B.R4, ("K0",), {}), ("O6", R.O6, K01, {}), ("T5", T.T5, K01, {}), ("Q6", R.clone_frame, ("K0",), {})],
+      ("R3", B.R3, ("K0",), {"parts": ("structures", "counts")}), ("R4", B.R4, ("K0",), {}), ("O6", R.O6, K01, {}), ("T5", T.T5, K01, {}), ("Q6", R.clone_frame, ("K0",), {}), ("T6", T.T6, K01, {})],
      K01,
      "Decides S2 (each ready-send is the preload of all zero-count nodes or the release at count==0 after the decrement), "
      "S3 (counts only decrease by one per predecessor edge), S6 (channel capacities are monotone in node_count so try_send never drops an id) "
@@ -54,7 +54,7 @@ prop("C03",
 
 prop("C04",
      [("T1", T.T1, K01, {}), ("T2", T.T2, K01, {}), ("T3", T.T3, K01, {"want_stream": False}),
-      ("S6", S.S6, K01, {}), ("S7", S.S7, K01, {}), ("S1", S.S1, K01, {}), ("T4", T.T4, ("K1",), {}), ("A1", T.A1, K01, {}), ("A2", R.A2, K01, {}), ("S4", S.S4, K01, {}), ("S6b", S.S6b_bitsets, K01, {}), ("L5", R.L5, K01, {}), ("T5", T.T5, K01, {}), ("N7", B.N7, K01, {}),
+      ("S6", S.S6, K01, {}), ("S7", S.S7, K01, {}), ("S1", S.S1, K01, {}), ("T4", T.T4, ("K1",), {}), ("A1", T.A1, K01, {}), ("A2", R.A2, K01, {}), ("S4", S.S4, K01, {}), ("S6b", S.S6b_bitsets, K01, {}), ("L5", R.L5, K01, {}), ("T5", T.T5, K01, {}), ("N7", B.N7, K01, {}), ("T6", T.T6, K01, {}),
       ("S2", S.S2, K01, {}), ("S3", S.S3, K01, {}), ("IM", S.S5_interrupt_map, ("K1",), {"rule": "IM"}),
       ("R3", B.R3, ("K0",), {"parts": ("structures", "counts")}), ("R4", B.R4, ("K0",), {})],
      K01,
@@ -71,7 +71,7 @@ prop("C05",
      [("T3", T.T3, K01, {"want_stream": True}), ("U1", T.U1, K01, {}), ("S2", S.S2, K01, {}), ("S3", S.S3, K01, {}),
       ("S5", S.S5, K01, {}), ("S7", S.S7, K01, {}), ("S4", S.S4, K01, {"liveness": True}),
       ("S6", S.S6, K01, {"roles_filter": ("READY", "DONE")}),
-      ("R3", B.R3, ("K0",), {"parts": ("structures", "counts")}), ("T5", T.T5, K01, {}), ("S1", S.S1, K01, {}), ("R4", B.R4, ("K0",), {}), ("N7", B.N7, K01, {})],
+      ("R3", B.R3, ("K0",), {"parts": ("structures", "counts")}), ("T5", T.T5, K01, {}), ("S1", S.S1, K01, {}), ("R4", B.R4, ("K0",), {}), ("N7", B.N7, K01, {}), ("T6", T.T6, K01, {})],
      K01,
      "Decides T3 on the stream poll closure (no return that may be Pending after a Ready(Some) from the done receiver without re-polling it), "
      "U1 (end-of-stream bookkeeping: countdown from node_count decremented on Ready(Some), both senders released at 0 and for the empty graph, "
